@@ -287,6 +287,38 @@ def _exc_name(e):
     return rt if rt is not None else type(e).__name__
 
 
+class PlainStub(StubSim):
+    """The same behaviour with PLAIN methods (no generator functions): what most in-process
+    simulators look like.  Can only be used ungated (`sync`)."""
+
+    def _drive(self, gen):
+        try:
+            y = next(gen)
+        except StopIteration as stop:
+            return stop.value
+        raise RuntimeError(f"plain stub {self.sid} would have to yield {y!r}")
+
+    def _plain_fault(self, kind, k):
+        f = self.spec.get("fault")
+        if f and f["req"] == kind and f["k"] == k and f["kind"] == "raise_stop":
+            # a StopIteration out of a plain method (e.g. next() on an exhausted iterator)
+            self.ctx.ev("X", self.sid, "fault", f["kind"], kind, k)
+            self.ctx.fault_done = True
+            raise StopIteration(f"injected StopIteration in {self.sid}")
+
+    def setup_done(self):
+        self._plain_fault("setup_done", 0)
+        return self._drive(StubSim.setup_done(self))
+
+    def step(self, time, inputs, max_advance):
+        self._plain_fault("step", self.k)
+        return self._drive(StubSim.step(self, time, inputs, max_advance))
+
+    def get_data(self, outputs):
+        self._plain_fault("get_data", self.cur)
+        return self._drive(StubSim.get_data(self, outputs))
+
+
 class DescSim(mosaik_api_v3.Simulator):
     """Returns exactly the model description / type / version it is told to (C12, C15)."""
 
